@@ -282,6 +282,31 @@ def run(ctx):
         directed.append(dict(argv=argv, paired=True, reads1=r1, reads2=r2, with_qual=True, interleaved_in=False))
         argv = ["--no-index", "-a", "a0=" + X, "-g", "a1=" + Y, "--times", "2", "--action", action if action != "retain" else "mask", "-o", "{dir}/o1.fastq"]
         directed.append(dict(argv=argv, paired=False, reads1=r1, reads2=None, with_qual=True, interleaved_in=False))
+    # soft-masked (lower-case) input with --action=lowercase: the part that would be removed is lower-cased, the kept part UPPER-cased -
+    # on the strand as given, on the reverse complement (--revcomp), single-end and paired
+    for _ in range(ctx.scale(20, 300)):
+        X, Y = "AAAGGGCCCTTTG", "TTTGGGAACCATC"
+        def soft(t):
+            return "".join(c.lower() if ctx.rng.random() < 0.4 else c for c in t)
+        paired = ctx.rng.random() < 0.4
+        r1, r2 = [], []
+        for i in range(6):
+            body = pipe.rs(ctx.rng, ctx.rng.randint(6, 14))
+            k = ctx.rng.random()
+            s1 = body + X + pipe.rs(ctx.rng, ctx.rng.randint(0, 4)) if k < 0.45 else (revcomp(X) + body) if k < 0.8 else body
+            if k >= 0.45 and k < 0.8:
+                s1 = revcomp(body + X + pipe.rs(ctx.rng, ctx.rng.randint(0, 3)))
+            body2 = pipe.rs(ctx.rng, ctx.rng.randint(6, 14))
+            s2 = body2 + (Y if ctx.rng.random() < 0.6 else "") + pipe.rs(ctx.rng, ctx.rng.randint(0, 3))
+            s1, s2 = soft(s1), soft(s2)
+            r1.append((f"r{i}", s1, "I" * len(s1)))
+            r2.append((f"r{i}", s2, "5" * len(s2)))
+        argv = [] if ctx.rng.random() < 0.5 else ["--no-index"]
+        argv += ["-a", "a0=" + X] + (["-A", "b0=" + Y] if paired else [])
+        if ctx.rng.random() < 0.7:
+            argv.append("--revcomp")
+        argv += ["--action", "lowercase", "-o", "{dir}/o1.fastq"] + (["-p", "{dir}/o2.fastq"] if paired else [])
+        directed.append(dict(argv=argv, paired=paired, reads1=r1, reads2=r2 if paired else None, with_qual=True, interleaved_in=False))
     # linked adapters whose occurrences contain insertions and deletions (aligned adapter length != matched read length) x actions
     def mutate(t):
         t = list(t)
